@@ -64,6 +64,21 @@ package prometheus
 //@   assert@call NewDesc#* : len(keys) == len(values) && $arg0 == name && $arg1 == m.Description
 //@   loop#2 invariant buckets != nil && 0 <= $k && cumulativeCount >= 0
 
+// exponential (native) histograms: Prometheus indexes buckets by upper boundary, so count i of a side is filed under that SIDE's
+// offset + i + 1 - positive counts in the positive map, negative counts in the negative map; count, sum, zero count, scale, zero
+// threshold and start time are the data point's; labels and label values stay paired
+//@ func addExponentialHistogramMetric(ch chan<- prometheus.Metric, histogram metricdata.ExponentialHistogram[$N], m metricdata.Metrics, name string, kv keyVals)
+//@   instances int64; float64
+//@   overflow assumed
+//@   unchecked frame fresh maps and fresh slices are written; Prometheus client calls
+//@   requires len(kv.keys) == len(kv.vals)
+//@   assert@call mapupdate#1 : $arg0 == positiveBuckets && $arg1 == int(dp.PositiveBucket.Offset) + i + 1 && c == dp.PositiveBucket.Counts[i] && $arg2 == c
+//@   assert@call mapupdate#2 : $arg0 == negativeBuckets && $arg1 == int(dp.NegativeBucket.Offset) + i + 1 && c == dp.NegativeBucket.Counts[i] && $arg2 == c
+//@   assert@call NewConstNativeHistogram#* : $arg1 == dp.Count && $arg2 === float64(dp.Sum) && $arg3 == positiveBuckets && $arg4 == negativeBuckets && $arg5 == dp.ZeroCount && $arg6 == dp.Scale && $arg7 === dp.ZeroThreshold && $arg8 === dp.StartTime && len($arg9) == len(keys)
+//@   assert@call NewDesc#* : len(keys) == len(values) && $arg0 == name && $arg1 == m.Description
+//@   loop#2 invariant positiveBuckets != nil
+//@   loop#3 invariant negativeBuckets != nil && positiveBuckets != nil
+
 // sums and gauges: monotonic sums are counters, everything else a gauge; the exposed value is the data point's value
 //@ func addSumMetric(ch chan<- prometheus.Metric, sum metricdata.Sum[$N], m metricdata.Metrics, name string, kv keyVals)
 //@   instances int64; float64
